@@ -1,0 +1,16 @@
+package validator
+
+// Loop heads of the validator's walks that the verification harness counts (see /verif, property
+// C12). verifCount is an empty stub unless the build tag `verif` is set.
+const (
+	verifSiteCycleOuter          = iota // validateFragmentSpreads: one entry of toVisit taken
+	verifSiteCycleInner                 // validateFragmentSpreads: one direct dependency looked at
+	verifSiteVarsNode                   // validateVariables: one call of the ast.Inspect callback
+	verifSiteVarsFragment               // validateVariables: one fragment name taken from the worklist
+	verifSiteFieldsSet                  // validateFields: one selection set checked for mergeability
+	verifSiteFieldsCollect              // addFieldSelections: one selection looked at
+	verifSiteFieldsCanMergePair         // validateFieldsInSetCanMerge: one pair of same-key fields
+	verifSiteFieldsSameShape            // validateSameResponseShape: one call
+	verifSiteFieldsSameShapePair        // validateSameResponseShape: one pair of same-key sub-fields
+	verifSiteCount
+)
